@@ -8,6 +8,7 @@ import (
 
 	"github.com/lmorg/murex/builtins/pipes/null"
 	"github.com/lmorg/murex/lang/stdio"
+	"github.com/lmorg/murex/utils/verifhook"
 )
 
 // Named is a table of created named pipes
@@ -35,9 +36,11 @@ func NewNamed() (n Named) {
 
 // CreatePipe creates a named pipe using the stdin interface
 func (n *Named) CreatePipe(name, pipeType, arguments string) error {
+	verifhook.Gate(n, "np.create")
 	n.mutex.Lock()
 
 	if n.pipes[name].Pipe != nil {
+		verifhook.Emit(n, "np.create", name, 0)
 		n.mutex.Unlock()
 		return fmt.Errorf("named pipe `%s`already exists", name)
 	}
@@ -54,6 +57,7 @@ func (n *Named) CreatePipe(name, pipeType, arguments string) error {
 	}
 
 	io.Open()
+	verifhook.Emit(n, "np.create", name, 1)
 	n.mutex.Unlock()
 	return nil
 }
@@ -78,9 +82,11 @@ func (n *Named) ExposePipe(name, pipeType string, io stdio.Io) error {
 
 // Close a named pipe
 func (n *Named) Close(name string) error {
+	verifhook.Gate(n, "np.close")
 	n.mutex.Lock()
 
 	if n.pipes[name].Pipe == nil {
+		verifhook.Emit(n, "np.close", name, 0)
 		n.mutex.Unlock()
 		return fmt.Errorf("no pipe with the name `%s` exists", name)
 	}
@@ -90,6 +96,7 @@ func (n *Named) Close(name string) error {
 		return errors.New("null pipe must not be closed")
 	}
 
+	verifhook.Emit(n, "np.close", name, 1)
 	n.mutex.Unlock()
 
 	go closePipe(n, name)
@@ -99,12 +106,14 @@ func (n *Named) Close(name string) error {
 func closePipe(n *Named, name string) {
 	time.Sleep(2 * time.Second)
 
+	verifhook.Gate(n, "np.timer:"+name)
 	n.mutex.Lock()
 
 	// the pipe might already have been removed by an earlier close or delete
 	if n.pipes[name].Pipe != nil {
 		n.pipes[name].Pipe.Close()
 		delete(n.pipes, name)
+		verifhook.Emit(n, "np.timer", name, 1)
 	}
 
 	n.mutex.Unlock()
@@ -112,9 +121,11 @@ func closePipe(n *Named, name string) {
 
 // Deletes a named pipe without closing it (careful using this!!!)
 func (n *Named) Delete(name string) error {
+	verifhook.Gate(n, "np.delete")
 	n.mutex.Lock()
 
 	if n.pipes[name].Pipe == nil {
+		verifhook.Emit(n, "np.delete", name, 0)
 		n.mutex.Unlock()
 		return fmt.Errorf("no pipe with the name `%s` exists", name)
 	}
@@ -125,6 +136,7 @@ func (n *Named) Delete(name string) error {
 	}
 
 	delete(n.pipes, name)
+	verifhook.Emit(n, "np.delete", name, 1)
 	n.mutex.Unlock()
 
 	return nil
@@ -135,9 +147,11 @@ func (n *Named) Get(name string) (stdio.Io, error) {
 	retries := 0
 
 try:
+	verifhook.Gate(n, "np.get")
 	n.mutex.Lock()
 
 	if n.pipes[name].Pipe == nil {
+		verifhook.Emit(n, "np.get", name, 0, int64(retries))
 		n.mutex.Unlock()
 
 		if retries == 5 {
@@ -149,6 +163,7 @@ try:
 	}
 
 	p := n.pipes[name].Pipe
+	verifhook.Emit(n, "np.get", name, 1, int64(retries))
 	n.mutex.Unlock()
 	return p, nil
 }
@@ -156,6 +171,7 @@ try:
 // Dump returns the named pipe table in a format that can be serialised into JSON
 func (n *Named) Dump() map[string]string {
 	dump := make(map[string]string)
+	verifhook.Gate(n, "np.dump")
 	n.mutex.Lock()
 	for name := range n.pipes {
 		dump[name] = n.pipes[name].Type
